@@ -544,6 +544,57 @@ def r4(ctx, facts, cg, pred):
             r.ok("scc:" + rep, "reviewed (%d functions): %s" % (len(comp), why), rb.span)
 
 
+def r5(ctx, facts):
+    r = ctx.rule("R5", "the frame body read loop ends at end-of-stream: a read of 0 bytes leaves the loop with an error", floor=1)
+    from ..util import backward_slice, bool_edges, switch_edges
+    from ..util import new_async_helpers
+    from ..inline import inline_view
+    b0 = inline_view(facts).one(r"^scylla_cql::frame::read_response_frame::\{closure#0\}$")
+    n = 0
+    work = []
+    for b in [b0] + [hb for hb, _ in new_async_helpers(inline_view(facts), b0)]:
+        work += [(b, c) for bb, c in b.calls() if bb in b.live_blocks and (c.decl or "") in
+                 ("tokio::io::util::async_read_ext::AsyncReadExt::read_buf", "tokio::io::util::async_read_ext::AsyncReadExt::read")]
+    for b, c in work:
+        in_loop = any(c.bb in b.reachable_from(x) for x in b.succ[c.bb])
+        if not in_loop:
+            continue
+        n += 1
+        zero_targets = []
+        for sw in sorted(b.live_blocks):
+            t = b.term(sw)
+            if t[0] != "switch" or t[1][0] not in ("c", "m"):
+                continue
+            locs, _calls, _ = backward_slice(b, t[1])
+            if c.dest[0] not in locs:
+                continue
+            sd = b.single_def(t[1][1][0])
+            if sd and sd[0] == "stmt" and sd[3][0] == "bin" and sd[3][1] in ("Eq", "Ne", "Gt", "Lt", "Le", "Ge"):
+                ops = sd[3][2:4]
+                ks = [o for o in ops if o[0] == "k" and o[1] == "int"]
+                if len(ks) != 1:
+                    continue
+                kv, const_left = int(ks[0][3]), ops[0][0] == "k"
+                tt, ff = bool_edges(b, sw)
+                op = sd[3][1]
+                if const_left:
+                    op = {"Gt": "Lt", "Lt": "Gt", "Le": "Ge", "Ge": "Le"}.get(op, op)
+                # which edge is taken when the count is 0
+                holds = {"Eq": 0 == kv, "Ne": 0 != kv, "Gt": 0 > kv, "Lt": 0 < kv, "Le": 0 <= kv, "Ge": 0 >= kv}[op]
+                # the test separates 0 from every positive count
+                if (op, kv) in (("Eq", 0), ("Ne", 0), ("Gt", 0), ("Lt", 1), ("Le", 0), ("Ge", 1)):
+                    zero_targets.append(tt if holds else ff)
+            else:
+                vals, other = switch_edges(b, sw)
+                if 0 in vals and b.local_ty(t[1][1][0]) in ("usize", "u64", "u32"):
+                    zero_targets.append(vals[0])
+        ok = bool(zero_targets) and all(c.bb not in b.reachable_from(z) for z in zero_targets)
+        r.instance("zero-read-leaves-loop", ok,
+                   "%s returns Ok(0) at end of stream, every time: the loop around it must test the count and leave on 0 (otherwise a frame cut inside its body makes the "
+                   "reader spin forever instead of returning ConnectionClosed); tests found: %d" % (c.decl.split("::")[-1], len(zero_targets)), c.span)
+    r.instance("counting-reads-in-loops", True, "%d counting reads inside loops" % n, b0.span, nontrivial=False)
+
+
 def selftest(ctx):
     """non-vacuity: the census / allocation / recursion detectors must fire on the deliberately violating fixture crate"""
     r = ctx.rule("R9", "non-vacuity: detectors fire on /verif/fixtures", floor=6)
@@ -593,7 +644,7 @@ def check(ctx):
     for p, n in per.items():
         anc.instance("entry:" + p, n > 0, "%d bodies match" % n, nontrivial=False)
     ctx.extra["decode_reachable_bodies"] = len(pred)
-    for fn in (lambda: r1(ctx, facts, cg, pred), lambda: r2(ctx, facts), lambda: r3(ctx, facts, cg, pred), lambda: r4(ctx, facts, cg, pred)):
+    for fn in (lambda: r1(ctx, facts, cg, pred), lambda: r2(ctx, facts), lambda: r3(ctx, facts, cg, pred), lambda: r4(ctx, facts, cg, pred), lambda: r5(ctx, facts)):
         try:
             fn()
         except AnchorLost as ex:
